@@ -56,4 +56,35 @@ PROPS = {
             'std HashMap contract as in C07',
         ],
     },
+    'C11': {
+        'units': ['xor'],
+        'kani_quick': [],
+        'kani_thorough': [],
+        'trusted': [
+            'seek_bufread::BufReader<File> satisfies the Stream/Read/Seek contract (reads deliver the file bytes at the current position; seek(Start(x)) reports x)',
+            "std's default Read::read_exact loop on top of read()",
+            'BlkFile::open hands the key read from xor.dat to every reader (unit chain); read_xor_key itself is file-system code, trusted',
+            'precondition surfaced by Verus: key non-empty (an empty xor.dat would divide by zero -- outside the property: "non-empty key")',
+        ],
+    },
+    'C03': {
+        'units': ['index'],
+        'kani_quick': [],
+        'kani_thorough': [],
+        'trusted': [
+            'rusty-leveldb: DB::new_iter()/advance()/current() enumerate every stored pair in key order (shim in unit index)',
+            'std::io::Cursor + byteorder read_u8 (shim); <[u8;32]>::try_from(&[u8]) (idiom I12)',
+            'input well-formedness db_wf: b-keys are 33 bytes, varint values < 2^64 (index written by Bitcoin Core)',
+            'directory scan BlkFile::from_path / resolve_path / read_xor_key: file-system calls, trusted',
+        ],
+    },
+    'C04': {
+        'units': ['index', 'c04goal'],
+        'kani_quick': [],
+        'kani_thorough': [],
+        'trusted': [
+            'same as C03 for get_block_index == select(records)',
+            'the block index records read by the code (hash, height, status, file, offset) -- the stored header (prev-hash) is never read',
+        ],
+    },
 }
